@@ -1,6 +1,7 @@
 import PeptVerif.Props.C16
 #print axioms Pept.Search.occurrences_spec
 #print axioms Pept.Search.findIndices_spec
+#print axioms Pept.Search.findIndices_spec_slice
 #print axioms Pept.Search.findIndices_increasing
 #print axioms Pept.Search.overlapping_found
 #print axioms Pept.Search.nonoverlapping_scan_misses
